@@ -395,6 +395,8 @@ def r4_first_order(ctx):
 
 # ---------------------------------------------------------------- R5
 def r5_conversion(ctx):
+    from . import C09 as _C09
+    _C09.r6_no_derived_state(ctx)     # the factor that rescales the uncertainty is the live one of the tables, not a memo (shared with C09.R6)
     fn = ctx.fn(UT, "UnitType.convert")
     p = fn.args.args[1].arg
     for has_err in (True, False):
@@ -470,9 +472,9 @@ def _scaled_converters(ctx):
     for c in ast.walk(fn):
         if isinstance(c, ast.Compare) and len(c.ops) == 1 and norm(c.left) == "self.conversion[0]":
             r = c.comparators[0]
-            if isinstance(c.ops[0], ast.Eq) and isinstance(r, ast.Constant) and isinstance(r.value, str):
+            if isinstance(c.ops[0], (ast.Eq, ast.NotEq)) and isinstance(r, ast.Constant) and isinstance(r.value, str):
                 scaled.add(r.value)
-            elif isinstance(c.ops[0], ast.In) and isinstance(r, (ast.Tuple, ast.List, ast.Set)):
+            elif isinstance(c.ops[0], (ast.In, ast.NotIn)) and isinstance(r, (ast.Tuple, ast.List, ast.Set)):
                 scaled |= {e.value for e in r.elts if isinstance(e, ast.Constant) and isinstance(e.value, str)}
     ist = ctx.fn(UT, "StandardUnitType._istype")
     selected = set()
@@ -509,7 +511,7 @@ def _scaled_converters(ctx):
         except NotSymbolic:
             proportional = None
         what = f"converter {name}: an identity/proportional rule has its uncertainty rescaled by convert()"
-        if proportional and name not in scaled:
+        if proportional and scaled and name not in scaled:
             ctx.violated(UT, f"{cname}.{name}", what, detail={"rule": norm(rets[0]), "rescaled names": sorted(scaled)},
                          expected="the value is multiplied by f1/f2, so the absolute uncertainty must be too")
         elif proportional is None:
